@@ -22,7 +22,7 @@ LIVE = ['RUNNING', 'IDLE', 'WAITING', 'DELAYED', 'PAUSED']
 
 
 # ----------------------------------------------------------------------------- generator
-def gen_reverse(rng, p_cycle=0.0, p_defaults=0.12, p_bad_target=0.04):
+def gen_reverse(rng, p_cycle=0.0, p_defaults=0.12, p_bad_target=0.04, p_missing=0.0):
     """{'tasks': [{'name', 'requires': [..], 'form': 'list'|'str'}], 'defaults': [..], 'target': name|None}
     The definition order of the tasks is independent of the dependency order."""
     n = rng.choice([2, 3, 3, 4, 4, 5, 5, 6, 6, 7, 8])
@@ -84,6 +84,8 @@ def gen_reverse(rng, p_cycle=0.0, p_defaults=0.12, p_bad_target=0.04):
         target = deep[0] if rng.random() < 0.6 else rng.choice(deep[:max(1, n // 2)])
     if rng.random() < p_bad_target:
         target = rng.choice([None, 'zz'])
+    if rng.random() < p_missing:
+        rng.choice(tasks)['requires'].append('zz')      # a required name that is not a task
     prog = {'tasks': tasks, 'defaults': defaults, 'target': target}
     prog['cyclic'] = bool(find_cycle(prog))
     return prog
@@ -150,6 +152,37 @@ def spec_json(prog):
             'defaultRequires': prog['defaults'], 'target': prog['target']}
 
 
+# ----------------------------------------------------------------------------- definition-time validation
+def real_validate(yaml_text):
+    """the REAL semantic validation of the definition: 'ok' | 'task-not-found' | 'requires-cycle' | other"""
+    from mistral.lang import parser as spec_parser
+    from mistral import exceptions as exc
+    try:
+        spec_parser.get_workflow_list_spec_from_yaml(yaml_text)
+        return 'ok'
+    except exc.InvalidModelException as e:
+        m = str(e)
+        if 'not found' in m:
+            return 'task-not-found'
+        if "cyclic 'requires'" in m:
+            return 'requires-cycle'
+        return 'other:' + m[:80]
+    except exc.MistralException as e:
+        return 'other:%s:%s' % (type(e).__name__, str(e)[:80])
+
+
+def check_validation(ctx, drv, prog, yaml_text):
+    """real validator vs Mistral.Reverse.checkIntegrity; returns the real verdict"""
+    rv = real_validate(yaml_text)
+    mv = drv.call('reverse.integrity', {'spec': spec_json(prog)})
+    ctx.count('reverse-valid', 'verdict:' + rv.split(':')[0])
+    ctx.evaluated('reverse-valid', [yaml_text], nontrivial=bool(prog['cyclic']) or rv != 'ok'
+                  or any(len(t['requires']) > 1 for t in prog['tasks']))
+    if mv != rv:
+        ctx.disagree('reverse-valid', {'yaml': yaml_text, 'spec': spec_json(prog), 'cyclic': prog['cyclic']}, mv, rv)
+    return rv
+
+
 # ----------------------------------------------------------------------------- (i) function level
 def gen_rows(rng, prog):
     """synthetic rows: either arbitrary, or a plausible snapshot of a run (a downward-closed set of
@@ -193,7 +226,9 @@ class ReverseImpl(object):
         self.db_api = db_api
         self.wf_base = wf_base
         self.yaml = render_yaml(prog)
-        self.wf_spec = spec_parser.get_workflow_list_spec_from_yaml(self.yaml).get_workflows()[0]
+        # validate=False: the controller is also exercised on definitions the validator rejects (stored
+        # definitions are loaded without validation)
+        self.wf_spec = spec_parser.get_workflow_list_spec_from_yaml(self.yaml, validate=False).get_workflows()[0]
         params = {} if prog['target'] is None else {'task_name': prog['target']}
         with db_api.transaction():
             db_api.delete_task_executions()
@@ -276,7 +311,8 @@ def run_fn_chunk(ctx, n_programs, rows_per_program):
     engine_driver.EngineWorld(seed='%s-%s' % (ctx.seed, getattr(ctx, 'chunk', 0)))
     drv = ctx.driver()
     for pi in range(n_programs):
-        prog = gen_reverse(ctx.rng, p_cycle=0.2)
+        prog = gen_reverse(ctx.rng, p_cycle=0.25, p_missing=0.05)
+        check_validation(ctx, drv, prog, render_yaml(prog))
         try:
             impl = ReverseImpl(prog)
         except Exception as e:
@@ -475,6 +511,10 @@ def signature(kind, prog):
 
 
 def check_case(ctx, drv, prog, table, policy, seed, stream='reverse'):
+    rv = check_validation(ctx, drv, prog, render_yaml(prog))
+    if rv != 'ok':
+        ctx.count(stream, 'definition-rejected:' + rv.split(':')[0])
+        return None
     r = run_case(prog, table, policy, seed)
     case = {'stream': 'reverse', 'program': prog, 'yaml': r['yaml'], 'oracle': table, 'policy': policy, 'seed': seed}
     hits = 0
@@ -534,13 +574,13 @@ def run_corpus(ctx, drv):
         check_case(ctx, drv, c['program'], c['oracle'], c['policy'], c['seed'])
 
 
-def run_engine_chunk(ctx, n_programs, p_cycle=0.06, p_err=None):
+def run_engine_chunk(ctx, n_programs, p_cycle=0.08, p_err=None):
     drv = ctx.driver()
     rng = ctx.rng
     if getattr(ctx, 'chunk', 0) == 0:
         run_corpus(ctx, drv)
     for i in range(n_programs):
-        prog = gen_reverse(rng, p_cycle=p_cycle)
+        prog = gen_reverse(rng, p_cycle=p_cycle, p_missing=0.02)
         pe = p_err if p_err is not None else rng.choice([0.0, 0.1, 0.1, 0.25])
         table = gen_table(rng, prog, pe)
         policy = rng.choice(['random', 'random', 'fifo', 'lifo'])
@@ -564,5 +604,8 @@ def run_chunk(ctx, fn_programs, rows_per_program, engine_programs, p_err=None):
 def replay(ctx, rep):
     r = rep['replay']
     res = check_case(ctx, ctx.driver(), r['program'], r['oracle'], r['policy'], r['seed'])
+    if res is None:
+        print('replay: the definition is rejected at creation')
+        return
     print('replay: reverse workflow, target %s, final %s, %d events' % (
         r['program']['target'], res['real'][-1]['wf'], len(res['events'])))
